@@ -345,3 +345,40 @@ Proof.
       apply (IH q2 Hn2); [|exact Hr].
       destruct (memq q2 S) eqn:Em; [|reflexivity]. destruct (Hi2 eq_refl) as [Hc0|[Hc0 _]]; congruence.
 Qed.
+
+(* ---- positions: the position of a token (and of the error) is the position reached by advancing over exactly the text in
+   front of it; so text inserted in front of a token moves its position by exactly that text (pos_adv is a fold) ---- *)
+Section Positions.
+  Variable adv : N -> N -> option N.
+  Variable cls : N -> cls_t.
+
+  Lemma pos_adv_app p a b : pos_adv p (a ++ b) = pos_adv (pos_adv p a) b.
+  Proof. unfold pos_adv. apply fold_left_app. Qed.
+
+  Definition placed (p : pos) (s : list N) (t : token) : Prop :=
+    exists pre raw rest m, s = pre ++ raw ++ rest /\ t_pos t = pos_adv p pre /\ t_lexeme t = apply_mode m raw.
+
+  Theorem lexes_positions p s ts e : lexes adv cls p s ts e ->
+    Forall (placed p s) ts /\
+    match e with
+    | EndError p' u => exists pre rest, s = pre ++ u ++ rest /\ p' = pos_adv p pre
+    | _ => True
+    end.
+  Proof.
+    induction 1 as [p|p u r q k m ts e Hne Hm Hc Hu Hl [IH1 IH2]|p u r q ts e Hne Hm Hc Hu Hl [IH1 IH2]|p u r q Hne Hm Hc].
+    - split; [constructor | exact I].
+    - split.
+      + constructor.
+        * exists [], u, r, m. simpl. repeat split; reflexivity.
+        * eapply Forall_impl; [|exact IH1]. intros t [pre [raw [rest [m' [E1 [E2 E3]]]]]].
+          exists (u ++ pre), raw, rest, m'. rewrite E1, <- app_assoc, pos_adv_app. repeat split; assumption.
+      + destruct e as [|p' u'|]; try exact I. destruct IH2 as [pre [rest [E1 E2]]].
+        exists (u ++ pre), rest. rewrite E1, <- app_assoc, pos_adv_app. split; [reflexivity | exact E2].
+    - split.
+      + eapply Forall_impl; [|exact IH1]. intros t [pre [raw [rest [m' [E1 [E2 E3]]]]]].
+        exists (u ++ pre), raw, rest, m'. rewrite E1, <- app_assoc, pos_adv_app. repeat split; assumption.
+      + destruct e as [|p' u'|]; try exact I. destruct IH2 as [pre [rest [E1 E2]]].
+        exists (u ++ pre), rest. rewrite E1, <- app_assoc, pos_adv_app. split; [reflexivity | exact E2].
+    - split; [constructor|]. exists [], r. simpl. split; reflexivity.
+  Qed.
+End Positions.
